@@ -72,7 +72,15 @@ func (e *EntityUID) UnmarshalCedar(data []byte) error {
 		return errInvalidUID
 	}
 
-	id, _, err := rust.Unquote([]byte(quoted[1:len(quoted)-1]), false)
+	inner := quoted[1 : len(quoted)-1]
+	for i := 0; i < len(inner); i++ {
+		if inner[i] == '\\' {
+			i++ // skip the escaped character
+		} else if inner[i] == '"' {
+			return errInvalidUID // an unescaped quote ends the literal early
+		}
+	}
+	id, _, err := rust.Unquote([]byte(inner), false)
 	if err != nil {
 		return errInvalidUID
 	}
